@@ -243,7 +243,7 @@ def _worker(args):
     return V.obligations, V.violations, V.known_hit, cov
 
 
-QUICK_SKIP = {"exp.255", "exp.256", "u32popcnt", "u32cto", "u32clz", "u32ctz", "u32clo", "ilog2", "lte", "lt", "gt", "gte", "u32testw", "eqw"}
+QUICK_SKIP = {"exp.255", "exp.256", "u32popcnt", "u32cto", "u32clz", "u32ctz", "u32clo", "ilog2", "lte", "lt", "gt", "gte", "u32testw"}
 
 
 def run(meta, V, cov, only=None):
